@@ -565,6 +565,17 @@ def random_set(rng, nz, kinds, allow_aux=True, center=None, scale=1.0, allow_fix
                       'w': w.tolist()})
         zc = zc + (0.25 * np.minimum(w, gamma / nz)).tolist()
         bounded = True
+    elif kind == 'expc' and allow_aux:
+        # exp(z_i) <= u_i <= ub_i, z_i >= lb_i  (u lifted)
+        w = np.round(rng.uniform(0.3, 1.2, nz) * scale, 2)
+        pairs = []
+        for i in range(nz):
+            ub = float(np.round(np.exp(c[i] + w[i]), 4))
+            pairs.append([i, n + i, ub, float(np.round(c[i] - w[i], 3))])
+        prims.append({'t': 'expc', 'pairs': pairs})
+        zc = zc + [float((np.exp(c[i]) + pairs[i][2]) / 2) for i in range(nz)]
+        n += nz
+        bounded = True
     elif kind == 'polytope':
         k = int(rng.integers(nz + 1, nz + 4))
         A = np.round(rng.normal(size=(k, nz)), 2)
